@@ -53,12 +53,12 @@ def locateEncode (name : Str) : Str :=
 /-- everything up to and including the last occurrence of `c` (`[]` when `c` does not occur) -/
 def upToLast (c : Char) (s : Str) : Str := (s.reverse.dropWhile (· != c)).reverse
 
-/-- `re.match(r"(.+?)(\(.*\))", e)` → `m.group(1, 2)`.
+/-- `re.match(r"(.+?)(\(.*\))", e)` → `m.group(1, 2)` (the regex without a final `$`).
 Deterministic reading: no flags, so both groups stay on the first line `L` of `e`; group 1 is lazy and
 non-empty, so it ends at the first `(` at index ≥ 1 that has a `)` somewhere after it on `L` (if the first
 such `(` has none, no later one has); group 2 is greedy, so it runs to the *last* `)` of `L`.  `re.match`
 is a prefix match: what follows the last `)` is not part of the match. -/
-def splitCall (e : Str) : Option (Str × Str) :=
+def splitCallRaw (e : Str) : Option (Str × Str) :=
   match e.takeWhile (· != '\n') with
   | [] => none
   | c :: rest =>
@@ -68,6 +68,17 @@ def splitCall (e : Str) : Option (Str × Str) :=
       match upToLast ')' body with
       | [] => none
       | b => some (c :: rest.takeWhile (· != '('), '(' :: b)
+
+/-- the regex with a final `$` (`callRegexAnchored`, regenerated from the source): the greedy match above must end
+at the end of the first line – the line ends with `)` – and the line must be the whole entry up to an optional
+final newline (`$` without `re.M`) -/
+def anchoredOk (e : Str) : Bool :=
+  let line := e.takeWhile (· != '\n')
+  line.getLast? == some ')' && (e.drop line.length == [] || e.drop line.length == ['\n'])
+
+/-- `re.match(<the call regex of create_filter_callable>, e)` → `m.group(1, 2)` -/
+def splitCall (e : Str) : Option (Str × Str) :=
+  if callRegexAnchored && !anchoredOk e then none else splitCallRaw e
 
 /-- the callee text emitted for one filter entry (body of the `for e in args` loop, `e != "n"`) -/
 def resolve (e : Str) : Str :=
@@ -128,6 +139,16 @@ def visitExpression (escapes : Str) (args : List Str) (text : Str) (cfg : Cfg) :
 def defFinishExpr (defArgs bufferFilters : List Str) (buffered cached : Bool) (s : Str) (cfg : Cfg) : Str :=
   let s1 := if !defArgs.isEmpty then createFilterCallable defArgs s false cfg else s
   if buffered && !cached then createFilterCallable bufferFilters s1 false cfg else s1
+
+/-- `write_cache_decorator`: what the caching wrapper of a `cached="True"` def returns (buffered) or writes
+(not buffered) around `s` = the `cache._ctx_get_or_create(…)` call; the wrapped function itself ends with
+`defFinishExpr … (cached := true)` -/
+def cacheDecoratorExpr (bufferFilters : List Str) (buffered : Bool) (s : Str) (cfg : Cfg) : Str :=
+  if buffered then createFilterCallable bufferFilters s false cfg else s
+
+/-- `visitCallTag`: the argument of `__M_writer(…)` for `<%call expr="e">`: the call expression is treated as an
+expression substitution without local filters -/
+def callTagExpr (e : Str) (cfg : Cfg) : Str := createFilterCallable [] e true cfg
 
 /-- `visitTextTag`: the argument of `__M_writer(…)` after a filtered `<%text>` -/
 def textTagExpr (args : List Str) (s : Str) (cfg : Cfg) : Str := createFilterCallable args s false cfg
